@@ -13,7 +13,17 @@ Table 1, `cells`.  A *cell* is a piece of process-wide state owned by psd_tools:
       - `cls.X = ...` / `Class.X = ...` / `type(self).X = ...` / `self.__class__.X = ...`,
       - `X[k] = ...`, `X.attr = ...`, `X.append(...)` (any mutator) on a module-level name X
         that is not rebound locally in that function,
-  * a memoising decorator (`functools.lru_cache` / `cache`) - its table is a cell.
+  * a memoising decorator (`functools.lru_cache` / `cache`) - its table is a cell,
+  * a module-level or class-level name bound at import to the result of a CALL whose callee is not known to return an
+    immutable object (IMMUTABLE_CTORS: loggers, compiled patterns, frozenset/tuple/str/int..., enum `auto`, TypeVar,
+    struct.Struct ...): `np.random.RandomState(0)`, `random.Random()`, an instance of a class, a cache object,
+    `copy.copy(x)` ... (kind `moduleObject`).  Its type is unknown, so EVERY use of the name inside a function body
+    (a method call on it - drawing from a generator advances it -, passing it on, returning it) is a potential mutation
+    and a read.
+Aliases: inside a function a local name bound to an expression that NAMES such state (`options = _DEFAULTS`,
+`t = TABLE[k]`, `o = mod.X or {}`, `a if c else b`, a parameter default `def f(o=_DEFAULTS)`) stands for it: an in-place
+change through the local (`options.update(..)`, `options[k] = v`, `t.append(..)`, `o.attr = v`) is a write of the cell
+(flow-insensitive: any such binding anywhere in the function counts).
 For every cell the walk records whether a *function body* (code that runs after
 import) mutates it (`writtenAtRuntime`) and whether a function body reads it
 (`readObservably`). Import-time statements (module top level, class bodies,
@@ -55,6 +65,15 @@ MUTATORS = {
     "cache_clear", "__setattr__",
 }
 MEMO = {"lru_cache", "cache", "cached"}
+# callees (last component) whose result is immutable or carries no document-observable state
+IMMUTABLE_CTORS = {
+    "getLogger", "TypeVar", "ParamSpec", "NewType", "TypeAliasType", "frozenset", "tuple", "str", "bytes", "int", "float",
+    "bool", "complex", "compile", "auto", "namedtuple", "NamedTuple", "Struct", "dtype", "object", "range", "slice",
+    "Fraction", "Decimal", "Path", "PurePath", "PurePosixPath", "MappingProxyType", "partial", "property", "staticmethod",
+    "classmethod", "cast", "Enum", "IntEnum", "Flag", "IntFlag", "unique", "field", "ib", "attrib", "new_registry",
+    "float32", "float64", "uint8", "uint16", "uint32", "int8", "int16", "int32", "int64", "finfo", "iinfo", "len", "min",
+    "max", "sum", "abs", "round", "ord", "chr", "repr", "format", "join", "encode", "decode", "version", "getenv",
+}
 
 # last component of a call into a foreign module that flips process-wide behaviour
 SWITCH_RE = re.compile(
@@ -169,6 +188,70 @@ def _local_names(fn) -> set:
     return (out - glob), glob
 
 
+def _alias_sources(v):
+    """the expressions a value may be (through `or` / `and` / conditional expressions) that name an existing object"""
+    if isinstance(v, ast.BoolOp):
+        return [x for e in v.values for x in _alias_sources(e)]
+    if isinstance(v, ast.IfExp):
+        return _alias_sources(v.body) + _alias_sources(v.orelse)
+    if isinstance(v, ast.NamedExpr):
+        return _alias_sources(v.value)
+    if isinstance(v, (ast.Name, ast.Attribute, ast.Subscript)):
+        root, parts = _chain(v)
+        if root is not None and "()" not in parts:
+            return [v]
+    return []
+
+
+def _aliases(fn) -> dict:
+    """local name -> expressions it is bound to somewhere in the function (not in nested scopes) that name an
+    existing object; parameter defaults included"""
+    out: dict[str, list] = {}
+    a = fn.args
+    pos = a.posonlyargs + a.args
+    for arg, d in zip(pos[len(pos) - len(a.defaults):], a.defaults):
+        for src in _alias_sources(d):
+            out.setdefault(arg.arg, []).append(src)
+    for arg, d in zip(a.kwonlyargs, a.kw_defaults):
+        if d is not None:
+            for src in _alias_sources(d):
+                out.setdefault(arg.arg, []).append(src)
+
+    def walk(n):
+        for c in ast.iter_child_nodes(n):
+            if isinstance(c, (ast.FunctionDef, ast.AsyncFunctionDef, ast.ClassDef, ast.Lambda)):
+                continue
+            if isinstance(c, ast.Assign):
+                for t in c.targets:
+                    if isinstance(t, ast.Name):
+                        for src in _alias_sources(c.value):
+                            if not (isinstance(src, ast.Name) and src.id == t.id):
+                                out.setdefault(t.id, []).append(src)
+            elif isinstance(c, ast.AnnAssign) and c.value is not None and isinstance(c.target, ast.Name):
+                for src in _alias_sources(c.value):
+                    out.setdefault(c.target.id, []).append(src)
+            elif isinstance(c, ast.NamedExpr) and isinstance(c.target, ast.Name):
+                for src in _alias_sources(c.value):
+                    out.setdefault(c.target.id, []).append(src)
+            walk(c)
+
+    walk(fn)
+    return out
+
+
+def _subst_root(expr, src):
+    """`expr` with the Name at the root of its access path replaced by `src`"""
+    if isinstance(expr, ast.Name):
+        return src
+    if isinstance(expr, ast.Attribute):
+        return ast.copy_location(ast.Attribute(value=_subst_root(expr.value, src), attr=expr.attr, ctx=expr.ctx), expr)
+    if isinstance(expr, ast.Subscript):
+        return ast.copy_location(ast.Subscript(value=_subst_root(expr.value, src), slice=expr.slice, ctx=expr.ctx), expr)
+    if isinstance(expr, ast.Call):
+        return ast.copy_location(ast.Call(func=_subst_root(expr.func, src), args=expr.args, keywords=expr.keywords), expr)
+    return expr
+
+
 def _chain(expr):
     """(root Name id | None, [attribute / '[]' / '()' components]) of an access path"""
     parts = []
@@ -209,14 +292,37 @@ def extract_all(src_root: Path):
     # when some function body writes them
     top_names: dict[str, dict[str, int]] = {}
     class_attrs: dict[str, dict[str, dict[str, int]]] = {}
+    # names bound at import to the result of a call of unknown (possibly mutable) type: cells as soon as a function uses them
+    obj_names: dict[str, dict[str, int]] = {}
+    obj_class_attrs: dict[str, dict[str, tuple]] = {}     # module -> attribute name -> (class, line)
 
     # ---- pass 1: declarations
     for f, tree in trees.items():
         mod = mods[f]
         top_names[mod] = {}
         class_attrs[mod] = {}
+        obj_names[mod] = {}
+        obj_class_attrs[mod] = {}
+
+        # module-level helper functions all of whose `return`s are calls of immutable constructors / constants
+        # (`def compile_re(p): return re.compile(p.encode(..), re.S)`) are immutable constructors themselves
+        imm_local = set()
+        for node in tree.body:
+            if isinstance(node, ast.FunctionDef):
+                rets = [r for r in ast.walk(node) if isinstance(r, ast.Return)]
+                if rets and all(r.value is None or isinstance(r.value, ast.Constant) or
+                                (isinstance(r.value, ast.Call) and call_name(r.value) in IMMUTABLE_CTORS) for r in rets):
+                    imm_local.add(node.name)
 
         def declare(targets, value, prefix, line, kind):
+            if isinstance(value, ast.Call) and not is_mutable_expr(value) and call_name(value) not in IMMUTABLE_CTORS \
+                    and call_name(value) is not None and not (isinstance(value.func, ast.Name) and value.func.id in imm_local):
+                for t in targets:
+                    if isinstance(t, ast.Name) and not (t.id.startswith("__") and t.id.endswith("__")):
+                        if prefix:
+                            obj_class_attrs[mod][t.id] = (prefix[:-1], line)
+                        else:
+                            obj_names[mod][t.id] = line
             if isinstance(value, ast.Call) and call_name(value) == "new_registry":
                 for t in targets:
                     if isinstance(t, ast.Tuple) and len(t.elts) == 2 and all(isinstance(e, ast.Name) for e in t.elts):
@@ -351,6 +457,7 @@ def extract_all(src_root: Path):
                 self.scopes = []         # (locals, globals) per function
                 self.classes = []        # enclosing class names
                 self.withs = []          # dotted names of the context managers we are lexically inside
+                self.aliases = []        # per function: local name -> [expressions it may stand for]
 
             # -- scope bookkeeping
             def visit_FunctionDef(self, node):
@@ -362,8 +469,10 @@ def extract_all(src_root: Path):
                     self.visit(d)
                 self.stack.append(node.name)
                 self.scopes.append(_local_names(node))
+                self.aliases.append(_aliases(node))
                 for st in node.body:
                     self.visit(st)
+                self.aliases.pop()
                 self.scopes.pop()
                 self.stack.pop()
 
@@ -374,9 +483,49 @@ def extract_all(src_root: Path):
                 a = node.args
                 loc = {x.arg for x in a.posonlyargs + a.args + a.kwonlyargs}
                 self.scopes.append((loc, set()))
+                self.aliases.append({})
                 self.visit(node.body)
+                self.aliases.pop()
                 self.scopes.pop()
                 self.stack.pop()
+
+            def alias_of(self, name):
+                """expressions a local name may stand for (innermost function that binds it)"""
+                for (loc, _), al in zip(reversed(self.scopes), reversed(self.aliases)):
+                    if name in loc:
+                        return al.get(name) or []
+                return []
+
+            def object_use(self, node, m2, n2, line):
+                k = ensure(m2, n2, "moduleObject", line)
+                cells[k].writers.append(self.where())
+
+            def visit_Name(self, node):
+                # any use, inside a function, of a module-level object of unknown type
+                if self.stack and isinstance(node.ctx, ast.Load) and not self.is_local(node.id):
+                    if node.id in obj_names[mod]:
+                        self.object_use(node, mod, node.id, obj_names[mod][node.id])
+                    elif node.id in own_name and own_name[node.id][1] in obj_names.get(own_name[node.id][0], {}):
+                        m2, n2 = own_name[node.id]
+                        self.object_use(node, m2, n2, obj_names[m2][n2])
+
+            def visit_Attribute(self, node):
+                if self.stack and isinstance(node.ctx, ast.Load):
+                    root, parts = _chain(node)
+                    if root is not None and "()" not in parts and "[]" not in parts:
+                        om = own_module_of(mod, root, parts) if not self.is_local(root) else None
+                        if om is not None and len(om[1]) >= 1 and om[1][0] in obj_names.get(om[0], {}):
+                            self.object_use(node, om[0], om[1][0], obj_names[om[0]][om[1][0]])
+                    v = node.value
+                    if isinstance(v, ast.Name) and (v.id in ("self", "cls") or v.id in any_class):
+                        for m2 in ([mod] + [m for m in obj_class_attrs if m != mod]):
+                            if node.attr in obj_class_attrs.get(m2, {}):
+                                cname, line = obj_class_attrs[m2][node.attr]
+                                if v.id in ("self", "cls") and m2 != mod:
+                                    continue
+                                self.object_use(node, m2, f"{cname}.{node.attr}", line)
+                                break
+                self.generic_visit(node)
 
             def visit_ClassDef(self, node):
                 self.classes.append(node.name)
@@ -406,11 +555,19 @@ def extract_all(src_root: Path):
                 switches.append({"module": mod, "line": node.lineno, "callee": dotted, "how": how,
                                  "where": self.where(), "atRuntime": bool(self.stack), "scoped": bool(scoped)})
 
-            def write_path(self, node, target, how):
+            def write_path(self, node, target, how, depth=0):
                 """`target` is stored to / deleted / mutated in place"""
                 root, parts = _chain(target)
                 if root is None:
                     return
+                if self.stack and depth < 3 and root not in ("self", "cls") and self.is_local(root) and \
+                        (parts or how == "mutate"):
+                    # a local name standing for module- / class-level state: the change goes through to what it names
+                    srcs = self.alias_of(root)
+                    for src in srcs:
+                        self.write_path(node, _subst_root(target, src), how, depth + 1)
+                    if srcs:
+                        return
                 fd = self.foreign(root, parts)
                 if fd is not None and parts:
                     self.site(node, fd.replace(".()", "()").replace(".[]", "[]"), how)
@@ -611,7 +768,8 @@ def extract_all(src_root: Path):
                 if isinstance(v, ast.Name):
                     # Class.NAME / cls.NAME / self.NAME for class-level cells (any class of any module with that attr)
                     cands = [k for k, c in cells.items()
-                             if c.kind in ("classMutable", "classAttrAssigned") and c.name.split(".")[-1] == expr.attr]
+                             if (c.kind in ("classMutable", "classAttrAssigned") or (c.kind == "moduleObject" and "." in c.name))
+                             and c.name.split(".")[-1] == expr.attr]
                     if v.id in ("cls", "self") or v.id in any_class:
                         if cands:
                             same = [k for k in cands if cells[k].module == mod]
@@ -627,6 +785,12 @@ def extract_all(src_root: Path):
                 if node.name == "new_registry":
                     return
                 self.stack.append(node.name)
+                # a parameter default naming a cell is handed to every call that omits the argument: a read by the function
+                for d in node.args.defaults + [x for x in node.args.kw_defaults if x is not None]:
+                    for src in _alias_sources(d):
+                        k = resolve(src, lambda n: False) if isinstance(src, (ast.Name, ast.Attribute)) else None
+                        if k:
+                            cells[k].readers.append(self.where())
                 self.scopes.append(_local_names(node))
                 for st in node.body:
                     self.visit(st)
